@@ -133,6 +133,48 @@ def dedupBy (bombs : List Id) (v : Vec) (o : List Outcome) : M (Out Unit) :=
   if len ≤ 1 then .ok ⟨v, .ret (), o⟩
   else dedupLoop bombs (len - 1) v 1 1 o
 
+/-! ## `dedup_by_key` — `BumpBox<[T]>::dedup_by_key` (l.2510-2516): `self.dedup_by(|a, b| key(a) == key(b))`,
+    i.e. the loop of `dedup_by` with TWO callback invocations per comparison (`key(read)`, then `key(prev)`) -/
+
+def dedupKeyLoop (bombs : List Id) : (fuel : Nat) → Vec → (read write : Nat) → List Outcome → M (Out Unit)
+  | 0, v, _, write, o => .ok ⟨setLen v write, .ret (), o⟩
+  | fuel + 1, v, read, write, o =>
+    match peek v read with
+    | .error e => .error e
+    | .ok _ =>
+      match peek v (write - 1) with
+      | .error e => .error e
+      | .ok _ =>
+        match o with
+        | [] => (dedupGuard v read write).map (⟨·, .panic false, []⟩)                     -- `key(a)` panicked
+        | .panic :: o => (dedupGuard v read write).map (⟨·, .panic false, o⟩)
+        | [.ret _] => (dedupGuard v read write).map (⟨·, .panic false, []⟩)              -- `key(b)` panicked
+        | .ret _ :: .panic :: o => (dedupGuard v read write).map (⟨·, .panic false, o⟩)
+        | .ret ka :: .ret kb :: o =>
+          if ka = kb then
+            match dropAt bombs false v read with
+            | .error e => .error e
+            | .ok (v, panicked) =>
+              if panicked then (dedupGuard v (read + 1) write).map (⟨·, .panic true, o⟩)
+              else dedupKeyLoop bombs fuel v (read + 1) write o
+          else
+            match copy v read write 1 with
+            | .error e => .error e
+            | .ok v => dedupKeyLoop bombs fuel v (read + 1) (write + 1) o
+
+def dedupByKey (bombs : List Id) (v : Vec) (o : List Outcome) : M (Out Unit) :=
+  let len := v.len
+  if len ≤ 1 then .ok ⟨v, .ret (), o⟩
+  else dedupKeyLoop bombs (len - 1) v 1 1 o
+
+/-- the answers `same_bucket` gives when it is `|a, b| key(a) == key(b)` and the key calls follow `o` -/
+def pairUp : List Outcome → List Outcome
+  | [] => []
+  | .panic :: _ => [.panic]
+  | [.ret _] => [.panic]
+  | .ret _ :: .panic :: _ => [.panic]
+  | .ret ka :: .ret kb :: o => .ret (if ka = kb then 1 else 0) :: pairUp o
+
 /-! ## `truncate`, `clear`, `pop`, `remove`, `swap_remove` -/
 
 /-- `non_null::truncate` (`src/polyfill/non_null.rs` l.55-80) behind `BumpBox<[T]>::truncate` (l.1587) -/
